@@ -19,6 +19,7 @@ from myst_parser.mdit_to_docutils.transforms import (
     HideNestedTransitions,
     ResolveAnchorIds,
     SortFootnotes,
+    UniqueContentsIds,
 )
 from myst_parser.parsers.mdit import create_md_parser
 from myst_parser.warnings_ import create_warning
@@ -55,6 +56,7 @@ class MystParser(SphinxParser):
             SortFootnotes,
             CollectFootnotes,
             HideNestedTransitions,
+            UniqueContentsIds,
             ResolveAnchorIds,
         ]
 
